@@ -1,6 +1,7 @@
 package chainsim
 
 import (
+	"sort"
 	"bytes"
 	"crypto/sha256"
 	"encoding/binary"
@@ -657,8 +658,19 @@ func (w *World) register(b *MBlock, parent *MBlock, all []*MTx, view map[wire.Ou
 			w.addTx(t)
 		}
 	}
-	// register outputs in the universe (every outpoint ever produced)
-	for _, t := range all {
+	// register outputs in the universe (every outpoint ever produced).  The
+	// order of the universe steers later choices, and the order in which the
+	// node's template generator lists equally attractive transactions is
+	// decided by Go's random map iteration inside the mempool: for blocks the
+	// node assembled the registration order is by transaction id instead.
+	regOrder := all
+	if b.Mut == "node-template" {
+		regOrder = append([]*MTx(nil), all...)
+		sort.SliceStable(regOrder[1:], func(i, j int) bool {
+			return bytes.Compare(regOrder[1+i].Hash[:], regOrder[1+j].Hash[:]) < 0
+		})
+	}
+	for _, t := range regOrder {
 		for i, out := range t.Msg.TxOut {
 			op := wire.OutPoint{Hash: t.Msg.TxHash(), Index: uint32(i)}
 			if _, ok := w.Universe[op]; !ok {
